@@ -102,6 +102,8 @@ class Units(object):
         if arg is None:
             return None
         elif isinstance(arg, str):
+            if arg not in Units.NAME_TO_UNIT:
+                raise ValueError("not a recognized unit: " + arg)
             return Units.NAME_TO_UNIT[arg]
         elif isinstance(arg, Units):
             return arg
